@@ -489,7 +489,7 @@ class Report:
         cov = {
             'obligations': self.obligations, 'discharged': self.discharged,
             'checker_cmd': checker_cmd or 'cd /verif/coq && make props/Prop_%s.vo && coqc (Print Assumptions on every theorem); correspondence: coqc -Q /verif/coq EQ coq/run/%s_*.v' % (self.pid, self.pid),
-            'trusted_base': (trusted or []) + ['axioms reported by Print Assumptions this run: ' + (', '.join(sorted(self.axioms)) or 'none (closed under the global context)')],
+            'trusted_base': (trusted or []) + (['Q-run = R-model on the shipped rationals: machine-checked per model function (props/Prop_Transfer.v, %d theorems rebuilt this run); the model-vs-code correspondence and, where a transcendental kernel is shipped as a table, its per-case enclosure remain' % self.extra['transfer_theorems_rebuilt']] if self.extra.get('transfer_theorems_rebuilt') else []) + ['axioms reported by Print Assumptions this run: ' + (', '.join(sorted(self.axioms)) or 'none (closed under the global context)')],
             'evaluations': max(len(self.cases), 1), 'distinct_nontrivial': max(len(distinct), 0),
             'rule': rule, 'samples': samples or ['(no correspondence cases)'],
             'input_distribution': dist,
